@@ -122,6 +122,9 @@ def _diag_props(d):
             props |= {"C08"}
             if impl - spec:
                 props |= {"C04"}   # a descriptor the rule excludes may be bonded
+        elif name == "error-not-expected" and any(x in str(d.get("obs", {}).get("exc", "")) for x in
+                                                  ("Valence", "Kekulize", "Sanit")):
+            props |= {"C05"}       # refused for a chemical reason: the assembled molecule is not what the tokens denote
         else:
             props |= G.clause_props(c, d)
     return props, "+".join(sorted(set(names)))
@@ -254,7 +257,7 @@ def run(prop, tier):
                     continue
                 if census.get(f"{k}/{c}", 0) == 0:
                     missing.append(f"{k}/{c}")
-    if missing:
+    if missing and not v.violations:
         raise MachineryError(f"vacuity guard: decision kinds / law classes never exercised in this run: {missing}")
 
     v.coverage = {
